@@ -13,6 +13,7 @@ pub mod c15;
 pub mod c16;
 pub mod c17;
 pub mod c19;
+pub mod c20;
 pub mod crashprops;
 
 use crate::seq::{self, Suite};
@@ -177,6 +178,9 @@ pub fn run_check(prop: &str, tier: &str) -> i32 {
             // writers racing the coordinator's round under the controlled scheduler
             let bound = if thorough { 3 } else { 2 };
             schedprops::run_programs(c08::write_behind_programs(), bound, 4000, budget * 0.5, &schedprops::judge_linearizable, None, &["C19"], &mut report);
+        }
+        "C20" => {
+            c20::check(tier, budget, &mut report);
         }
         "C10" => {
             let deep = suites::layout_suites(thorough);
